@@ -5,6 +5,9 @@ CONSTANTS Flows = {1, 2}
           InitRules <- Rules_o_i
           RuleSets <- NoRuleSets
           Reloads = FALSE
+          Cfgs <- NoCfgs
+          InitCfg = 0
+          EffOf <- EffNone
           VerMod = 4
           Gaps = {1, 4}
           MaxItems = 3
